@@ -28,7 +28,7 @@ func init() {
 		if tier == "thorough" {
 			n = 900
 		}
-		return Plan{Runs: n, Race: true, Level: "exploration", Rule: "one run = seven concurrent phases (cold-start handshakes; first use of a new multi-URL location while a refresh tick runs; handshakes overtaking a slow background first load; handshakes vs tick vs UpdateCRL vs forced background refresh; handshakes after a refresh that failed signature verification; OCSP lookups around cache expiry; handshakes vs Cleanup) with 2-6 client tasks over 1-2 validators, backend, fetch mode and preemption density drawn per run, executed under the race detector; non-trivial = at least 10 task switches happened inside a phase; distinct = distinct schedule fingerprints"}
+		return Plan{Runs: n, Race: true, Level: "exploration", Rule: "one run = seven concurrent phases (cold-start handshakes; first use of a new multi-URL location while a refresh tick runs; handshakes overtaking a slow background first load; handshakes vs tick vs UpdateCRL vs forced background refresh; handshakes after a refresh that failed signature verification, then racing the refresh that recovers from it; OCSP lookups around cache expiry; handshakes vs Cleanup) with 2-6 client tasks over 1-2 validators, backend, fetch mode and preemption density drawn per run, executed under the race detector; non-trivial = at least 10 task switches happened inside a phase; distinct = distinct schedule fingerprints"}
 	}, Run: runC13})
 }
 
@@ -41,8 +41,11 @@ func runC13(h *Harness) {
 	nclients := 2 + tp.Int(5)
 	h.S.pPre = uint64(pre) * (1 << 32) / 1000
 	h.S.pSwitchNum = 50
+	// in two thirds of the runs, tasks that have just given up a lock are held back at a seeded subset of such sites
+	h.S.pDelayDen, h.S.delayFor = Pick(tp, 0, 5, 5, 10), Pick(tp, 2*time.Second, 20*time.Second)
 	sc := h.R.Scenario
 	sc["backend"], sc["fetch"], sc["pre"], sc["nodes"], sc["clients"] = backend, fetch, pre, nnodes, nclients
+	sc["delay_den"] = h.S.pDelayDen
 	strict := fetch == "" // in background mode a strict validator legitimately denies until the fetch is done
 	w := NewWorld(h, WorldOpts{Intermediate: tp.Chance(1, 2)})
 	l1 := w.NewLocation(LocOpts{Name: "L1", URL: "http://crl.sim/a.crl", Issuer: w.A, NVers: 3, Extra: Pick(tp, 2, 20, 100), Width: 8})
@@ -259,6 +262,33 @@ func runC13(h *Harness) {
 			v := errStr(c.hs.Err)
 			if strings.HasPrefix(v, "error(") {
 				h.Violation("C13.verdict", "after-failed-verify:error", "phase 3: handshake %s returned %s (the previous list is in force, the origin serves a list that fails verification)", c.class, v)
+			}
+		}
+		// ------------------------------------------------------------ phase 3b: ... and the refresh that ends that state
+		// The origin serves the acceptable newest list again. The tick that accepts it races handshakes that still find
+		// the entry in the state 'last refresh failed verification' (and retry the signer lookup with their own chain).
+		h.S.Run(func(v schedView) bool {
+			for _, t := range v.parked {
+				if t.kind == kStart && !t.client {
+					return true
+				}
+			}
+			return false
+		}, h.S.Now()+11*time.Minute)
+		cs = nil
+		for i := 0; i < nclients+2; i++ {
+			cs = append(cs, spawn(n0, l1, Pick(tp, "common", "never", "only"), nil))
+		}
+		waitAll(cs)
+		h.Settle(60 * time.Second)
+		for _, c := range cs {
+			h.R.Checks++
+			v := errStr(c.hs.Err)
+			if strings.HasPrefix(v, "error(") {
+				h.Violation("C13.verdict", "recovery-from-failed-verify:error", "phase 3b: handshake %s returned %s while a fault-free refresh ended the 'last refresh failed verification' state", c.class, v)
+			}
+			if c.class == "common" && c.hs.Err == nil {
+				h.Violation("C13.verdict", "recovery-from-failed-verify:listed-accepted", "phase 3b: a certificate listed in every version was accepted")
 			}
 		}
 	}
